@@ -41,13 +41,31 @@ XREF_PREFIX = b"s{54797065:N58526566;"
 NAME_CHARS = "ABCDEFGHIJKLMNOPQRSTUVWXYZabcdefghijklmnopqrstuvwxyz0123456789_.-"
 
 
+# values written through create/update/fulfil (not the base files, which the specification-side writer spells) range over
+# C04's whole storable domain: names with white-space, delimiters, '#' and non-ASCII letters, strings with CR/LF/NUL
+_WIDE = [False]
+WIDE_NAME_CHARS = NAME_CHARS + " #/()<>[]{}%\t\u00e9\u4e2d"
+
+
 def gen_name(rng):
+    if _WIDE[0] and rng.randrange(3) == 0:
+        return Name("".join(rng.choice(WIDE_NAME_CHARS) for _ in range(rng.randint(1, 8))))
     return Name("".join(rng.choice(NAME_CHARS) for _ in range(rng.randint(1, 8))))
+
+
+def gen_hvalue(rng, refs):
+    _WIDE[0] = True
+    try:
+        return gen_value(rng, refs, top=True)
+    finally:
+        _WIDE[0] = False
 
 
 def gen_string(rng):
     n = rng.randint(0, 12)
     kind = rng.randrange(4)
+    if _WIDE[0] and rng.randrange(4) == 0:
+        return bytes(rng.choice(b"ab\r\n\t\x00\\()\x7f") for _ in range(n))
     if kind == 0:
         return bytes(rng.choice(b"abc ()\\xyz012") for _ in range(n))
     if kind == 1:
@@ -247,7 +265,7 @@ def gen_history(rng, base, n_ops, n_saves, fail_mode):
                 h.add(b"S", "S")
                 h.add(b"R " + rtxt(some_ref()), "R", None)
                 # repair: replace the offending value / fulfil the promise, then save again
-                v = gen_value(rng, refs_pool(), top=True)
+                v = gen_hvalue(rng, refs_pool())
                 if fail_mode == "promise":
                     pending.remove(broken[1])
                     h.add(b"F %s %s" % (rtxt(broken), cv(v)), "F", broken, v); nh += 1; handles.append("u")
@@ -256,14 +274,14 @@ def gen_history(rng, base, n_ops, n_saves, fail_mode):
                 h.add(b"S", "S")
             else:
                 for p in list(pending):
-                    v = gen_value(rng, refs_pool(), top=True)
+                    v = gen_hvalue(rng, refs_pool())
                     h.add(b"F h%d %s" % (p, cv(v)), "F", ("h", p), v); nh += 1; handles.append("u")
                     pending.remove(p)
                 h.add(b"S", "S")
             continue
         k = rng.randrange(10)
         if k <= 1:
-            v = gen_value(rng, refs_pool(), top=True)
+            v = gen_hvalue(rng, refs_pool())
             h.add(b"C " + cv(v), "C", v); nh += 1; handles.append("c")
         elif k <= 4 and (updatable or handles):
             # update: base objects of every storage form, or a reference handed out earlier
@@ -274,13 +292,13 @@ def gen_history(rng, base, n_ops, n_saves, fail_mode):
                 touched.add(r[1]); hbase[nh] = r[1]
             elif r[1] in hbase:
                 touched.add(hbase[r[1]]); hbase[nh] = hbase[r[1]]
-            v = gen_value(rng, refs_pool(), top=True)
+            v = gen_hvalue(rng, refs_pool())
             h.add(b"U %s %s" % (rtxt(r), cv(v)), "U", r, v); nh += 1; handles.append("u")
         elif k == 5:
             h.add(b"P", "P"); pending.append(nh); nh += 1; handles.append("p")
         elif k == 6 and pending:
             p = pending.pop(rng.randrange(len(pending)))
-            v = gen_value(rng, refs_pool(), top=True)
+            v = gen_hvalue(rng, refs_pool())
             h.add(b"F h%d %s" % (p, cv(v)), "F", ("h", p), v); nh += 1; handles.append("u")
         elif k in (7, 8):
             h.add(b"R " + rtxt(some_ref()), "R", None)
